@@ -669,7 +669,7 @@ pub fn check(ctx: &mut Ctx) -> Option<Meta> {
             let rule = "ordinary sequential histories over all kinds (chunk sizes <= len+3) executed by two builds of the crate and the harness (debug-assertions + overflow-checks on / both off, same optimisation level) in separate processes; oracle: the transcripts (every result, panics, process aborts, destructor ledger, 'allocation balance is zero') are identical; non-trivial = the history contains a chunk pull or ends a consuming iterator; distinct by case hash".to_string();
             ctx.run_campaign(&Campaign {
                 name: "seq-twins".into(),
-                cases: scale_cases(ctx, PLAIN_BOOST * 30_000, 30),
+                cases: scale_cases(ctx, PLAIN_BOOST * 200_000, 20),
                 make_strategy: &|| case_strategy(&cfg),
                 run: &crate::twin::eval_c17,
                 rule: rule.clone(),
